@@ -61,6 +61,9 @@ pub enum Action {
     Unblocked,
     /// pre-encoded frames pushed verbatim on the mux queue of channel `ch`
     Raw { ch: u16, frames: Vec<Vec<u8>> },
+    /// a byte stream delivered in segments cut at the given offsets (relative to its start),
+    /// one segment every `gap_ns`; bypasses the mux
+    RawStream { bytes: Vec<u8>, cuts: Vec<usize>, gap_ns: u64, then_eof: bool },
     Eof,
     Reset,
     /// stop sending anything (incl. heartbeats) from now on
@@ -1008,6 +1011,33 @@ impl Broker {
             }
             Action::Raw { ch, frames } => {
                 self.enqueue_now(ch, frames, SentKind::Raw);
+            }
+            Action::RawStream { bytes, cuts, gap_ns, then_eof } => {
+                self.flush_all();
+                let start = self.s2c.len();
+                let now = simrt::now_ns();
+                let mut at = (now + self.cfg.s2c_lat_min_ns).max(self.last_s2c_at);
+                let mut pos = 0usize;
+                let mut cuts = cuts.clone();
+                cuts.retain(|c| *c > 0 && *c < bytes.len());
+                cuts.sort();
+                cuts.dedup();
+                cuts.push(bytes.len());
+                for c in cuts {
+                    let chunk = bytes[pos..c].to_vec();
+                    pos = c;
+                    self.stats.segments += 1;
+                    simrt::schedule(at, true, "net.s2c", Box::new(NetEv::S2C { bytes: chunk }));
+                    at += gap_ns;
+                }
+                self.s2c.extend_from_slice(&bytes);
+                self.last_s2c_at = at;
+                self.sent.push(SentRec { stamp: simrt::stamp(), time_ns: now, s2c_start: start, s2c_end: self.s2c.len(), kind: SentKind::Raw });
+                if then_eof {
+                    self.s2c_closed = true;
+                    self.eof_sent_at = Some(now);
+                    simrt::schedule(at, true, "net.eof", Box::new(NetEv::S2CEof));
+                }
             }
             Action::Eof => {
                 self.flush_all();
